@@ -148,9 +148,15 @@ fn consolidate_pass_lines(
             continue;
         }
 
-        line.parent = line.parent.map(|parent| LineParent {
-            line_index: mapped_line_indices[parent.line_index],
-            global_token_index: parent.global_token_index,
+        // On malformed input a line can name a parent that does not precede it; such a line is
+        // kept, but without a parent.
+        line.parent = line.parent.and_then(|parent| {
+            mapped_line_indices
+                .get(parent.line_index)
+                .map(|&line_index| LineParent {
+                    line_index,
+                    global_token_index: parent.global_token_index,
+                })
         });
 
         let new_line_index = result_lines.len();
